@@ -28,6 +28,9 @@ def av_in(*ks):
     return ("in", frozenset(ks))
 
 
+TOP = ("nin", frozenset())   # any value: what a load executed before an intervening write yields
+
+
 def av_join(a, b):
     if a is None or b is None:
         return None
@@ -280,6 +283,15 @@ class Eval:
                 e = self.flow.expr(ref)
                 if e[0] == "c" and isinstance(e[1], int):
                     return ("in", frozenset([e[1]]))
+            g = self.fn.inst(d["ptr"])
+            if g is not None and g.op == "getelementptr" and g["base"].startswith("@") and len(g["path"]) == 2 and \
+                    g["path"][0] == "[#0]" and g["path"][1].startswith("["):
+                # element of a constant table indexed by a value known on this path
+                gv = self.fn.pdb.glob_in(self.fn.unit, g["base"][1:])
+                if gv and gv.get("const") and isinstance(gv.get("init"), list) and all(isinstance(x, int) for x in gv["init"]):
+                    ix = self.val(g["path"][1][1:-1], depth - 1)
+                    if ix is not None and ix[0] == "in" and all(0 <= k < len(gv["init"]) for k in ix[1]):
+                        return ("in", frozenset(gv["init"][k] for k in ix[1]))
             pe = self.flow.expr(d["ptr"])
             v = self.flow.hooks.load_override(pe, self)
             if v is None:
@@ -406,6 +418,18 @@ class Flow:
         ub = closed
         self._useblocks = ub
         self._loadkeys = lk
+        # loads whose value (or something computed from it) may be consumed after a later write to memory: used in another
+        # block, or followed in their own block by a store or call.  Values are evaluated lazily from the memory facts, so
+        # these loads are tracked: once their cell may have been overwritten they keep the value they had (see _settle)
+        ll = set()
+        for b in fn.blocks:
+            n = len(b.insts)
+            for idx, i in enumerate(b.insts):
+                if i.op != "load":
+                    continue
+                if ub.get(i.ref, set()) - {b.id} or any(j.op in ("store", "call", "invoke") for j in b.insts[idx + 1:n]):
+                    ll.add(i.ref)
+        self._longlived = ll
         esc = set()
         for i in fn.all_insts():
             if i.op == "store":
@@ -427,12 +451,47 @@ class Flow:
             elif k[0] == "M":
                 if self._loadkeys.get(k[1], set()) & reach or self.hooks.pinned(k[1]):
                     out[k] = v
-            elif k[0] == "A":
+            elif k[0] in ("A", "U", "S"):
                 if self._useblocks.get(k[1], set()) & reach:
                     out[k] = v
             else:
                 out[k] = v
         return out
+
+    # ---- loads executed before a write
+    def _probe(self, facts):
+        """facts plus a placeholder memory fact for the cell of every tracked load, so that the kill routines tell us which of
+        those cells the coming write may change"""
+        pr = None
+        for k, pe in facts.items():
+            if isinstance(k, tuple) and k[0] == "U" and ("M", pe) not in facts:
+                if pr is None:
+                    pr = {}
+                pr[("M", pe)] = TOP
+        if pr is None:
+            return facts, None
+        f2 = dict(facts)
+        f2.update(pr)
+        return f2, pr
+
+    def _settle(self, before, after, probes):
+        """after a write: `before` are the facts before it, `after` what the kill routine left of before + probes.  Every
+        tracked load whose cell fact (real or placeholder) did not survive keeps the value it had before the write and is
+        marked stale (a later refinement of its value no longer says anything about memory)"""
+        stale = [k for k, pe in before.items() if isinstance(k, tuple) and k[0] == "U" and ("M", pe) not in after]
+        if probes:
+            for k in probes:
+                after.pop(k, None)
+        if stale:
+            E = Eval(self, before)
+            for k in stale:
+                ref = k[1]
+                if ref not in after:
+                    v = E.val(ref)
+                    after[ref] = v if v is not None else TOP
+                after.pop(k, None)
+                after[("S", ref)] = 1
+        return after
 
     @staticmethod
     def _freeze(facts):
@@ -462,8 +521,9 @@ class Flow:
                     self.constrain(facts, i["a"], "eq", 0, depth - 1)
             return self.constrain(facts, i["a"], "ne", 0, depth - 1)
         if i.op == "load":
-            key = ("M", self.expr(i["ptr"]))
-            facts[key] = new
+            if ("S", ref) not in facts:
+                key = ("M", self.expr(i["ptr"]))
+                facts[key] = new
             return facts
         if i.op == "phi":
             al = facts.get(("A", ref))
@@ -524,7 +584,8 @@ class Flow:
                 return self.assume(facts, al, truth, depth - 1)
             return facts
         if op == "load":
-            facts[("M", self.expr(i["ptr"]))] = av_in(1 if truth else 0)
+            if ("S", ref) not in facts:
+                facts[("M", self.expr(i["ptr"]))] = av_in(1 if truth else 0)
             return facts
         return facts
 
@@ -635,13 +696,21 @@ class Flow:
             w = b.get(k)
             if w is None:
                 continue
-            if isinstance(k, tuple) and k[0] == "A":
+            if isinstance(k, tuple) and k[0] in ("A", "U", "S"):
                 if v == w:
                     out[k] = v
                 continue
             j = av_join(v, w)
             if j is not None:
                 out[k] = j
+        # a load that is tracked or stale on one side only is stale in the join, with whatever both sides agree on
+        for x, y in ((a, b), (b, a)):
+            for k in x:
+                if isinstance(k, tuple) and k[0] in ("U", "S") and k not in out:
+                    out.pop(("U", k[1]), None)
+                    out[("S", k[1])] = 1
+                    if k[1] not in out:
+                        out[k[1]] = TOP
         return out
 
     def _run_block(self, B, prop, facts, trace, work):
@@ -653,8 +722,10 @@ class Flow:
                 continue  # assigned on the edge
             # a re-executed definition (loop iteration) invalidates what was known about the old value
             r0 = inst.ref
-            if r0 in facts or any(v == r0 for k, v in facts.items() if isinstance(k, tuple) and k[0] == "A"):
-                facts = {k: v for k, v in facts.items() if k != r0 and not (isinstance(k, tuple) and k[0] == "A" and v == r0)}
+            if r0 in facts or ("U", r0) in facts or ("S", r0) in facts or \
+                    any(v == r0 for k, v in facts.items() if isinstance(k, tuple) and k[0] == "A"):
+                facts = {k: v for k, v in facts.items() if k != r0 and not (isinstance(k, tuple) and (
+                    (k[0] == "A" and v == r0) or (k[0] in ("U", "S") and k[1] == r0)))}
             E = Eval(self, facts)
             if op == "store":
                 r = hooks.on_inst(inst, prop, E)
@@ -663,7 +734,8 @@ class Flow:
                 prop = r
                 pe = self.expr(inst["ptr"])
                 v = E.val(inst["val"])
-                facts = self._kill_store(facts, pe)
+                fp, probes = self._probe(facts)
+                facts = self._settle(facts, self._kill_store(fp, pe), probes)
                 if v is not None:
                     facts[("M", pe)] = v
                 continue
@@ -688,7 +760,9 @@ class Flow:
                     root = vf.root_of(pe)
                     r_alloca = isinstance(root, tuple) and root[0] == "alloca"
                     out = {}
-                    for k, v in facts.items():
+                    before = facts
+                    fp, probes = self._probe(facts)
+                    for k, v in fp.items():
                         if isinstance(k, tuple) and k[0] == "M":
                             kr = vf.root_of(k[1])
                             k_alloca = isinstance(kr, tuple) and kr[0] == "alloca"
@@ -701,9 +775,10 @@ class Flow:
                                     out[k] = v
                             continue
                         out[k] = v
-                    facts = out
+                    facts = self._settle(before, out, probes)
                 elif not (cal and hooks.pure(cal)):
-                    facts = self._kill_call(facts, inst)
+                    fp, probes = self._probe(facts)
+                    facts = self._settle(facts, self._kill_call(fp, inst), probes)
                 if (cal in NORETURN) or inst.get("noreturn"):
                     hooks.on_end(inst, prop, Eval(self, facts))
                     self.end_states.append((inst, prop, facts, trace))
@@ -716,10 +791,7 @@ class Flow:
                     facts = dict(facts)
                     facts[inst.ref] = v
                 if extra:
-                    facts = dict(facts)
-                    for k2, v2 in extra.items():
-                        if k2 != "__facts__":
-                            facts[k2] = v2
+                    facts = self._apply_extra(facts, extra)
                 if forks:
                     for fk in forks:
                         f2 = dict(base_facts)
@@ -728,9 +800,7 @@ class Flow:
                         p2 = fk
                         if isinstance(fk, tuple) and len(fk) == 2 and isinstance(fk[1], dict) and fk[1].get("__facts__"):
                             p2 = fk[0]
-                            for k2, v2 in fk[1].items():
-                                if k2 != "__facts__":
-                                    f2[k2] = v2
+                            f2 = self._apply_extra(f2, fk[1])
                         self._continue(B, inst, p2, f2, trace, work)
                 continue
             if op == "ret":
@@ -789,6 +859,27 @@ class Flow:
             if r is KILL:
                 return
             prop = r
+            if op == "load" and inst.ref in self._longlived and not inst["ptr"].startswith("@"):
+                facts = dict(facts)
+                facts[("U", inst.ref)] = self.expr(inst["ptr"])
+
+    def _apply_extra(self, facts, extra):
+        """facts a hook attaches to one outcome of a call; a memory cell among them is a write by the callee"""
+        cells = [k for k in extra if isinstance(k, tuple) and k[0] == "M"]
+        if cells:
+            after = {k: v for k, v in facts.items() if k not in cells}
+            fp, probes = self._probe(facts)
+            if probes:
+                for k in probes:
+                    if k not in cells:
+                        after[k] = TOP
+            facts = self._settle(facts, after, probes)
+        else:
+            facts = dict(facts)
+        for k2, v2 in extra.items():
+            if k2 != "__facts__":
+                facts[k2] = v2
+        return facts
 
     def _continue(self, B, after_inst, prop, facts, trace, work):
         """resume a forked property state right after `after_inst` in block B"""
@@ -829,7 +920,9 @@ class Flow:
 class _SubBlock:
     def __init__(self, B, start):
         self.id = B.id
-        self.insts = B.insts[start:]
+        # `start` indexes the whole block, also when B is itself the rest of a block (a fork inside a forked continuation)
+        self.full = getattr(B, "full", B.insts)
+        self.insts = self.full[start:]
         self.succs = B.succs
         self.name = B.name
 
